@@ -124,14 +124,22 @@ def run_direct(case, rec):
     n_exec = 0
     sample = None
     for it in range(case["n"]):
-        hostile = rng.random() < 0.15          # strongly sheared periodic cell + unbounded cutoff + many atoms
+        hostile = rng.random() < 0.2           # strongly sheared periodic cell + unbounded / very long cutoff + many atoms
         cell, kind = cells.random_cell(rng, lo=2.0, hi=10.0, kind="sheared" if hostile else None)
-        pbc = np.array(cells.PBCS[int(rng.integers(8))]) if not hostile else np.array(cells.PBCS[int(rng.integers(4, 8))])
+        pbc = np.array(cells.PBCS[int(rng.integers(8))]) if not hostile else np.array(cells.PBCS[int(rng.integers(1, 8))])
         n = int(rng.integers(1, 11)) if not hostile else int(rng.integers(7, 11))
         pos, _, mode = cells.positions_inside(rng, cell, n, mode="uniform" if hostile else None)
         cutoff, cclass = _cutoff_choice(rng, pos, cell, pbc)
         if hostile:
-            cutoff, cclass = (None, "None") if rng.random() < 0.5 else (float("inf"), "inf")
+            u = rng.random()
+            if u < 0.35:
+                cutoff, cclass = None, "None"
+            elif u < 0.7:
+                cutoff, cclass = float("inf"), "inf"
+            else:
+                # a FINITE cutoff beyond the longest periodic cell vector (the extension an unbounded cutoff uses)
+                lmax = max(np.linalg.norm(cell[i]) for i in range(3) if pbc[i])
+                cutoff, cclass = float(lmax * rng.uniform(1.05, 2.5)), "finite>longest-periodic-vector"
         if _n_images(cell, pbc, np.inf if cutoff is None else cutoff) * n > 60000:
             cutoff, cclass = float(rng.uniform(0.5, 3.0)), "finite"
             if _n_images(cell, pbc, cutoff) * n > 60000:
